@@ -514,6 +514,39 @@ def check_memo_functions(ctx, functions, rule='A2p'):
                         ctx.used_exception('A2p', f'context:{p}', CONTEXT_PARAMS[p])
                     else:
                         missing.append(p)
+                # the iteration variable of an enclosing `for` that goes straight into the memoised computation
+                # identifies what is computed: it has to be part of the key as itself (a key made of things derived
+                # from it need not tell two iterations apart)
+                enclosing = [f_ for f_ in ast.walk(fn.node) if isinstance(f_, (ast.For, ast.AsyncFor)) and
+                             any(x is s.ast for st_ in f_.body for x in ast.walk(st_))]
+                lvs = {x.id for f_ in enclosing for x in ast.walk(f_.target) if isinstance(x, ast.Name)}
+                vcalls = [c for c in ast.walk(s.ast.value) if isinstance(c, ast.Call)]
+                direct = {a.id for c in vcalls for a in list(c.args) + [k.value for k in c.keywords]
+                          if isinstance(a, ast.Name) and a.id in lvs}
+                if direct:
+                    key_names = set()
+                    work_k = [t.slice]
+                    seen_k = set()
+                    while work_k:
+                        e = work_k.pop()
+                        for x in ast.walk(e):
+                            if isinstance(x, ast.Name) and x.id not in seen_k:
+                                seen_k.add(x.id)
+                                key_names.add(x.id)
+                                if x.id not in lvs:
+                                    for d in rd.defs_of(x.id, s) if rd is not None else []:
+                                        if d.kind == 'stmt' and isinstance(d.ast, ast.Assign) and \
+                                                isinstance(d.ast.value, (ast.Tuple, ast.Name)):
+                                            work_k.append(d.ast.value)
+                    lost = sorted(direct - key_names)
+                    n += 1
+                    ctx.touch(fn)
+                    ctx.ob(rule, fkey(fn, rule, f'{cont}[{key}]:iteration-variable-in-key'), not lost,
+                           f'{fn.module.relpath}:{s.lineno}',
+                           f'the iteration variable(s) {sorted(direct)} handed to the memoised computation are elements '
+                           f'of the key of `{cont}`', 'present' if not lost else
+                           f'{lost} is not part of the key `{key}`: two iterations with otherwise equal key parts share '
+                           f'one entry although they compute different things')
                 # a key the function itself tests against None is a sentinel on some paths ("no index known"): all
                 # calls on which it is None would share one entry, whatever they computed
                 knames = [x.id for x in ast.walk(t.slice) if isinstance(x, ast.Name)]
